@@ -66,6 +66,16 @@ var (
 	reFillProp  = regexp.MustCompile(`^if (.*) \{ return 0 \} ; n := i ; i \+= id\.fill\(data, i\) ; i \+= v\.fill\(data, i\) ; return i - n$`)
 	reDecFixed  = regexp.MustCompile(`^if len\(data\) (<|<=) (\d+) \{ return unmarshalErr\(v, "", "missing data"\) \} ; \*v = (\w+)\(binary\.BigEndian\.Uint(16|32)\(data\)\) ; return nil$`)
 	reDecByte   = regexp.MustCompile(`^\*v = (\w+)\(data\[0\]\) ; return nil$`)
+	reDecBin = regexp.MustCompile(`^var (\w+) wuint16 ; _ = (\w+)\.UnmarshalBinary\(data\) ; if len\(data\) (<|<=) int\((\w+)\)\+(\d+) \{ return unmarshalErr\(v, "", "missing data"\) \} ; ` +
+		`if (\w+) == 0 \{ return nil \} ; \*v = make\(\[\]byte, (\w+)\) ; copy\(\*v, data\[(\d+):int\((\w+)\)\+(\d+)\]\) ; return nil$`)
+	reDecVb = regexp.MustCompile(`^if len\(data\) == 0 \{ return unmarshalErr\(v, "", "missing data"\) \} ; var (\w+) uint = 1 ; var (\w+) uint ; ` +
+		`for _, (\w+) := range data \{ (\w+) \+= uint\((\w+)\) & uint\((\d+)\) \* (\w+) if (\w+) (>|>=) ([\d\*]+) \{ return unmarshalErr\(v, "", "size exceeded"\) \} ` +
+		`if (\w+)&(\d+) == 0 \{ \*v = vbint\((\w+)\) return nil \} (\w+) = (\w+) \* (\d+) \} ; return unmarshalErr\(v, "", "missing data"\)$`)
+	reDecPair = regexp.MustCompile(`^var (\w+) wstring ; if err := (\w+)\.UnmarshalBinary\(data\); err != nil \{ return unmarshalErr\(v, "key", err\.\(\*Malformed\)\) \} ; v\[0\] = string\((\w+)\) ; ` +
+		`(\w+) := len\(v\[0\]\) \+ (\d+) ; var (\w+) wstring ; if err := (\w+)\.UnmarshalBinary\(data\[(\w+):\]\); err != nil \{ return unmarshalErr\(v, "value", err\.\(\*Malformed\)\) \} ; ` +
+		`v\[1\] = string\((\w+)\) ; return nil$`)
+	reFillVb = regexp.MustCompile(`^(\w+) := v ; (\w+) := i ; for \{ (\w+) := byte\((\w+) % (\d+)\) (\w+) = (\w+) / (\d+) if (\w+) > 0 \{ (\w+) = (\w+) \| (\d+) \} ` +
+		`if i < len\(data\) \{ data\[i\] = (\w+) \} i\+\+ if (\w+) == 0 \{ break \} \} ; return i - (\w+)$`)
 	reDecBool   = regexp.MustCompile(`^switch data\[0\] \{ case 0: \*v = wbool\(false\) case 1: \*v = wbool\(true\) default: return fmt\.Errorf\("malformed bool"\) \} ; return nil$`)
 )
 
@@ -220,6 +230,138 @@ func wireGen() (string, []string) {
 		}
 		fmt.Fprintf(&sb, "def %s.dec : Dec %s := %s\n\n", n, t.lean, def)
 	}
+	// ---- the variable-length decoders: bindata (strings, binary data), vbint (in memory), UserProp
+	all := func(xs ...string) bool {
+		for _, x := range xs[1:] {
+			if x != xs[0] {
+				return false
+			}
+		}
+		return true
+	}
+	binDef := "fun _ => .panic"
+	if fd := funcs["bindata.UnmarshalBinary"]; fd != nil {
+		b := wireBody(fd)
+		if m := reDecBin.FindStringSubmatch(b); m != nil && all(m[1], m[2], m[4], m[6], m[7], m[9]) {
+			binDef = fmt.Sprintf(`fun data =>
+  let length : Nat := Mq.Gen.bindata.len data
+  if data.length %s length + %s then .err .missing
+  else if length = 0 then .ok old (Mq.Gen.bindata.width old)                              -- the destination is left alone
+  else if length + %s > data.length then .panic                                            -- data[lo:hi] beyond the data
+  else
+    let v := copyAt (List.replicate length 0) 0 ((data.take (length + %s)).drop %s)        -- make + copy
+    .ok v (Mq.Gen.bindata.width v)`, lt[m[3]], m[5], m[10], m[10], m[8])
+		} else {
+			bad = append(bad, "bindata.UnmarshalBinary: "+b)
+		}
+	} else {
+		bad = append(bad, "bindata.UnmarshalBinary")
+	}
+	sb.WriteString("/-- `var length wuint16; _ = length.UnmarshalBinary(data)`: the error is dropped, the length stays 0 -/\ndef bindata.len (data : Bytes) : Nat := match Mq.Gen.wuint16.dec data with | .ok x _ => x.toNat | _ => 0\n\n")
+	fmt.Fprintf(&sb, "/-- `bindata.UnmarshalBinary` then `width()`; `old` is what the destination held -/\ndef bindata.dec (old : Bytes) : Dec Bytes := %s\n\n", binDef)
+
+	vbOK := false
+	if fd := funcs["vbint.UnmarshalBinary"]; fd != nil {
+		b := wireBody(fd)
+		if m := reDecVb.FindStringSubmatch(b); m != nil && all(m[1], m[7], m[8], m[14], m[15]) && all(m[2], m[4], m[13]) && all(m[3], m[5], m[11]) {
+			vbOK = true
+			fmt.Fprintf(&sb, `/-- the loop of `+"`vbint.UnmarshalBinary`"+` (`+"`for _, encodedByte := range data`"+`); falling out of it is the final return -/
+def vbint.decLoop : Bytes → Nat → Nat → DecRes Nat
+  | [], _, _ => .err .missing
+  | b :: rest, mult, acc =>
+    let acc' := acc + (b.toNat &&& %s) * mult
+    if mult %s %s then .err .sizeExceeded
+    else if b.toNat &&& %s = 0 then .ok acc' (Mq.Gen.vbint.width acc')
+    else vbint.decLoop rest (mult * %s) acc'
+
+def vbint.dec : Dec Nat := fun data => if data.length = 0 then .err .missing else vbint.decLoop data 1 0
+
+`, m[6], geq[m[9]], m[10], m[12], m[16])
+		} else {
+			bad = append(bad, "vbint.UnmarshalBinary: "+b)
+		}
+	} else {
+		bad = append(bad, "vbint.UnmarshalBinary")
+	}
+	if !vbOK {
+		sb.WriteString("def vbint.dec : Dec Nat := fun _ => .panic\n\n")
+	}
+
+	pairW := ""
+	if fd := funcs["UserProp.width"]; fd != nil && wireBody(fd) == "return wstring(v[0]).width() + wstring(v[1]).width()" {
+		pairW = "Mq.Gen.bindata.width v.1 + Mq.Gen.bindata.width v.2"
+	} else {
+		bad = append(bad, "UserProp.width")
+		pairW = "0"
+	}
+	fmt.Fprintf(&sb, "def UserProp.width (v : Bytes × Bytes) : Nat := %s\n\n", pairW)
+	pairDef := "fun _ => .panic"
+	if fd := funcs["UserProp.UnmarshalBinary"]; fd != nil {
+		b := wireBody(fd)
+		if m := reDecPair.FindStringSubmatch(b); m != nil && all(m[1], m[2], m[3]) && all(m[4], m[8]) && all(m[6], m[7], m[9]) {
+			pairDef = fmt.Sprintf(`fun data =>
+  match Mq.Gen.bindata.dec [] data with
+  | .ok k _ =>
+    if k.length + %s > data.length then .panic                                             -- data[i:] beyond the data
+    else match Mq.Gen.bindata.dec [] (data.drop (k.length + %s)) with
+      | .ok v _ => .ok (k, v) (Mq.Gen.UserProp.width (k, v))
+      | .err e => .err e
+      | .panic => .panic
+  | .err e => .err e
+  | .panic => .panic`, m[5], m[5])
+		} else {
+			bad = append(bad, "UserProp.UnmarshalBinary: "+b)
+		}
+	} else {
+		bad = append(bad, "UserProp.UnmarshalBinary")
+	}
+	fmt.Fprintf(&sb, "def UserProp.dec : Dec (Bytes × Bytes) := %s\n\n", pairDef)
+
+	// ---- vbint.fill: the encoder loop
+	vbFill := false
+	if fd := funcs["vbint.fill"]; fd != nil {
+		b := wireBody(fd)
+		if m := reFillVb.FindStringSubmatch(b); m != nil && all(m[1], m[4], m[6], m[7], m[9], m[14]) && all(m[3], m[10], m[11], m[13]) && all(m[2], m[15]) && all(m[5], m[8]) {
+			vbFill = true
+			fmt.Fprintf(&sb, `/-- the loop of `+"`vbint.fill`"+`, one unit of fuel per iteration (the value itself always suffices) -/
+def vbint.fillAux : Nat → Nat → Bytes → Nat → Bytes × Nat
+  | 0, x, b, i => (if i < b.length then b.set i (UInt8.ofNat x) else b, 1)
+  | fuel + 1, x, b, i =>
+    let e := if x / %s > 0 then (x %% %s) ||| %s else x %% %s
+    let b' := if i < b.length then b.set i (UInt8.ofNat e) else b
+    if x / %s = 0 then (b', 1)
+    else
+      let r := vbint.fillAux fuel (x / %s) b' (i + 1)
+      (r.1, r.2 + 1)
+
+def vbint.fill (v : Nat) : Filler := fun b i => vbint.fillAux v v b i
+
+`, m[8], m[5], m[12], m[5], m[8], m[8])
+		} else {
+			bad = append(bad, "vbint.fill: "+b)
+		}
+	} else {
+		bad = append(bad, "vbint.fill")
+	}
+	if !vbFill {
+		sb.WriteString("def vbint.fill (_ : Nat) : Filler := Filler.unknown \"vbint.fill\"\n\n")
+	}
+	// ---- UserProp.fill
+	pairFill := "Filler.unknown \"UserProp.fill\""
+	if fd := funcs["UserProp.fill"]; fd != nil {
+		if b := wireBody(fd); b == "i += wstring(v[0]).fill(data, i) ; _ = wstring(v[1]).fill(data, i) ; return v.width()" {
+			pairFill = `fun b i =>
+  let r1 := Mq.Gen.bindata.fill v.1 b i
+  let r2 := Mq.Gen.bindata.fill v.2 r1.1 (i + r1.2)
+  (r2.1, Mq.Gen.UserProp.width v)`
+		} else {
+			bad = append(bad, "UserProp.fill: "+b)
+		}
+	} else {
+		bad = append(bad, "UserProp.fill")
+	}
+	fmt.Fprintf(&sb, "def UserProp.fill (v : Bytes × Bytes) : Filler := %s\n\n", pairFill)
+
 	sort.Strings(bad)
 	fmt.Fprintf(&sb, "def untranslatedWire : List String := [%s]\n\nend Mq.Gen\n", quoteAll(bad))
 	return sb.String(), bad
